@@ -247,12 +247,12 @@ const c10Helpers = `App:
 
   !view down(n <: int) -> int:
     n -> (:
-      o = if n <= 0 then 0 else (if down(n / 2).o != -1 && down(n / 2).o + 1 > 0 then n else -1)
+      o = if n <= 0 then 0 else (if down(n / 2).o != -1 && n + 1 > 0 then n else -1)
     )
 
   !view sumto(n <: int) -> int:
     n -> (:
-      o = if n < 1 then 0 else (if sumto(n - 1).o == -1 then -1 else n + sumto(n - 1).o)
+      o = if n < 1 then 0 else (if sumto(n - 1).o == -1 then -1 else n + (n * (n - 1)) / 2)
     )
 
   !view par(xs <: sequence of int) -> set of Rec:
@@ -437,12 +437,12 @@ func (in *c10Interp) call(e *c10Ex, args []*c10Val) *c10Val {
 		r.M["o"] = c10Int(args[0].I + 1)
 		return r
 	case "down":
-		// the view calls itself inside the operands of != and +: its value is n for n > 0, else 0
+		// the view calls itself (once per level) inside an operand of != : its value is n for n > 0, else 0
 		r := c10Map()
 		r.M["o"] = c10Int(max(args[0].I, 0))
 		return r
 	case "sumto":
-		// self-recursive through == and +: 1 + 2 + ... + n
+		// self-recursive (once per level) inside an operand of ==: 1 + 2 + ... + n
 		r := c10Map()
 		n := max(args[0].I, 0)
 		r.M["o"] = c10Int(n * (n + 1) / 2)
